@@ -261,6 +261,28 @@ def loadStep (ds : DateState) (sp : SplineState) (toks : List String) : Option S
     match Dual.tryNew re ns dv with
     | some d => pure s!"ok v={d.vars.length} d={d.dual.length}"
     | none => pure "err"
+  | "trydualfrom" :: real :: rest => do
+    let re ← parseF? real
+    let (os, rest) ← counted rest
+    let (ns, rest) ← counted rest
+    let (dsT, rest) ← counted rest
+    if !rest.isEmpty then none else
+    let dv ← dsT.mapM parseF?
+    match Dual.tryNewFrom (dedup os) re ns dv with
+    | some d => pure s!"ok v={d.vars.length} d={d.dual.length}"
+    | none => pure "err"
+  | "trydual2from" :: real :: rest => do
+    let re ← parseF? real
+    let (os, rest) ← counted rest
+    let (ns, rest) ← counted rest
+    let (dsT, rest) ← counted rest
+    let (hsT, rest) ← counted rest
+    if !rest.isEmpty then none else
+    let dv ← dsT.mapM parseF?
+    let hv ← hsT.mapM parseF?
+    match Dual2.tryNewFrom (dedup os) re ns dv hv with
+    | some d => pure s!"ok v={d.vars.length} d={d.dual.length} h={d.dual2.length}x{(d.dual2.headD []).length}"
+    | none => pure "err"
   | "trydual2" :: real :: rest => do
     let re ← parseF? real
     let (ns, rest) ← counted rest
